@@ -294,7 +294,53 @@ func randomMatcher(rng *rand.Rand, depth int) vh.Matcher {
 	return m
 }
 
+// directedRouterRun: instance families that random choice hardly ever hits (every tenth instance is one of them).
+//   drain:   a handler consumes EXACTLY the bytes the first matching round prefetched (the client pauses there), then a
+//            route that needs several more chunks, the two rounds together exceeding the matching limit - the second
+//            round has the whole limit to itself
+//   noterr:  a `not` over a matcher that fails: matching ends by the error, the route does not run
+//   notfull: a `not` over a matcher that needs more than the matching limit holds: matching ends by buffer exhaustion
+func directedRouterRun(rng *rand.Rand, tag int64) *vh.RouterRun {
+	thr := func(at int, v string) vh.Matcher { return vh.Matcher{K: "thr", At: at, V: v, W: v, Sub: [][]vh.Matcher{}} }
+	switch (tag / 10) % 3 {
+	case 0:
+		n := 2048 * (1 + rng.Intn(3))
+		a2 := 8192 - n + 1 + rng.Intn(n-1)
+		if a2 > 8000 {
+			a2 = 8000
+		}
+		routes := []vh.RouteSpec{
+			{Sets: [][]vh.Matcher{{thr(n, "Y")}}, Hs: []vh.HandlerSpec{{K: "eat", N: n}}},
+			{Sets: [][]vh.Matcher{{thr(a2, "Y")}}, Hs: []vh.HandlerSpec{{K: "term"}}},
+		}
+		pulls := []int{}
+		for k := 0; k < n/2048; k++ {
+			pulls = append(pulls, 2048)
+		}
+		rest := []int{2048, 1000, 1, 2047}[rng.Intn(4)]
+		for sum := 0; sum < a2+100; sum += rest {
+			pulls = append(pulls, rest)
+		}
+		return &vh.RouterRun{Cfg: &vh.RouterCfg{Lists: [][]vh.RouteSpec{routes}}, Scale: 1, Slen: n + a2 + 100, EndKind: "eof", Pulls: pulls, Tag: tag}
+	case 1:
+		at := 1 + rng.Intn(3000)
+		routes := []vh.RouteSpec{
+			{Sets: [][]vh.Matcher{{{K: "not", V: "Y", W: "Y", Sub: [][]vh.Matcher{{thr(at, "E")}}}}}, Hs: []vh.HandlerSpec{{K: "term"}}},
+			{Sets: [][]vh.Matcher{}, Hs: []vh.HandlerSpec{{K: "term"}}},
+		}
+		return &vh.RouterRun{Cfg: &vh.RouterCfg{Lists: [][]vh.RouteSpec{routes}}, Scale: 1, Slen: at + rng.Intn(500), EndKind: "eof", Pulls: []int{1 + rng.Intn(at), 2048, 2048}, Tag: tag}
+	default:
+		routes := []vh.RouteSpec{
+			{Sets: [][]vh.Matcher{{{K: "not", V: "Y", W: "Y", Sub: [][]vh.Matcher{{thr(11000+rng.Intn(3000), "Y")}}}}}, Hs: []vh.HandlerSpec{{K: "term"}}},
+		}
+		return &vh.RouterRun{Cfg: &vh.RouterCfg{Lists: [][]vh.RouteSpec{routes}}, Scale: 1, Slen: 20000, EndKind: "silent", Pulls: []int{2048, 2048, 2048, 2048, 2048, 2048, 2048}, Tag: tag}
+	}
+}
+
 func randomRouterRun(rng *rand.Rand, tag int64) *vh.RouterRun {
+	if tag%10 == 7 {
+		return directedRouterRun(rng, tag)
+	}
 	cfg := &vh.RouterCfg{Lists: [][]vh.RouteSpec{nil}}
 	var build func(L int, depth int)
 	build = func(L int, depth int) {
